@@ -98,6 +98,9 @@ func (r ReceiverReport) Marshal() ([]byte, error) {
 
 // Unmarshal decodes the ReceiverReport from binary
 func (r *ReceiverReport) Unmarshal(rawPacket []byte) error {
+	// Clear any existing entries
+	r.Reports = nil
+
 	/*
 	 *         0                   1                   2                   3
 	 *         0 1 2 3 4 5 6 7 8 9 0 1 2 3 4 5 6 7 8 9 0 1 2 3 4 5 6 7 8 9 0 1
